@@ -69,6 +69,28 @@ func c19LoopCases(c *Ctx) []c19LoopCase {
 			c19LoopCase{false, k, append(append([]hsmsss.VerifLinktestObs{}, pre...), frame, silent(-9)), "recheck-off"},
 		)
 	}
+	// a wake-up suppressed by rule 1 (a frame moved within the last interval — possibly only one of OUR OWN sends)
+	// is not life shown by the peer: the run of consecutive silent timeouts continues across it, so a dead peer is
+	// dropped at exactly the threshold-th timeout (after seeded change C19c-2: the run was reset there)
+	for k := 2; k <= 3; k++ {
+		for pos := 1; pos < k; pos++ {
+			for _, reps := range []int{1, 3} {
+				var obs []hsmsss.VerifLinktestObs
+				for i := 0; i < pos; i++ {
+					obs = append(obs, silent(-9))
+				}
+				for i := 0; i < reps; i++ {
+					a := silent(-9)
+					a.Active = true
+					obs = append(obs, a)
+				}
+				for i := pos; i < k+1; i++ {
+					obs = append(obs, silent(-9))
+				}
+				cs = append(cs, c19LoopCase{true, k, obs, fmt.Sprintf("active-between-failures:%d", pos+reps+(k-pos))})
+			}
+		}
+	}
 	r := c.Rng
 	for i := 0; i < c.Pick(120, 1500); i++ {
 		n := 1 + r.IntN(10)
@@ -154,6 +176,14 @@ func c19Loop(c *Ctx) {
 				}
 				if !lc.suppress && !(r.Down && r.Steps == lc.k) {
 					add("property", "off-timeout-not-counted", fmt.Sprintf("suppression off: want TCPDown at wake-up %d, got down=%v after %d", lc.k, r.Down, r.Steps))
+				}
+			}
+			if strings.HasPrefix(lc.tag, "active-between-failures:") {
+				var want int
+				fmt.Sscanf(lc.tag, "active-between-failures:%d", &want)
+				if !r.Down || r.Steps != want {
+					add("property", "dead-link-not-dropped-at-threshold", fmt.Sprintf("silent peer, threshold %d, suppressed (rule 1) wake-ups between the timeouts: want TCPDown at wake-up %d (the %d-th consecutive timeout), got down=%v after %d",
+						lc.k, want, lc.k, r.Down, r.Steps))
 				}
 			}
 			if ans != nil {
